@@ -10,6 +10,8 @@ import (
 	"encoding/json"
 	"fmt"
 	"testing"
+
+	"pgregory.net/rapid"
 )
 
 type c09FloodCase struct {
@@ -18,6 +20,10 @@ type c09FloodCase struct {
 	Kind   string `json:"kind"` // hs-records, empty-app, warn-alerts, ccs
 	N      int    `json:"n"`
 	Size   int    `json:"size"`
+	// kind "pattern": the records of Pattern ("app" = application data of Size bytes, "warn" = warning
+	// alert, "hs" = handshake record of Size bytes, "empty" = empty application data, "ccs"), handed to
+	// the transport in one piece per cycle, N cycles
+	Pattern []string `json:"pattern,omitempty"`
 }
 
 func c09RunFlood(c c09FloodCase) (sig, msg string) {
@@ -41,6 +47,44 @@ func c09RunFlood(c c09FloodCase) (sig, msg string) {
 				err = vfPeerAlert(pc, 1, 90)
 			case "ccs":
 				err = vfPeerBareCCS(pc)
+			case "pattern":
+				// one cycle reaches the transport as one write / one datagram
+				pc.out.Lock()
+				pc.buffering = true
+				pc.out.Unlock()
+				rawRec := func(typ recordType, data []byte) error {
+					pc.out.Lock()
+					defer pc.out.Unlock()
+					pc.buffering = true
+					_, e := pc.writeRecordLocked(typ, data)
+					return e
+				}
+				for _, el := range c.Pattern {
+					switch el {
+					case "app":
+						err = rawRec(recordTypeApplicationData, make([]byte, c.Size))
+					case "warn":
+						err = rawRec(recordTypeAlert, []byte{1, 90})
+					case "hs":
+						err = rawRec(recordTypeHandshake, make([]byte, c.Size))
+					case "empty":
+						pc.out.Lock()
+						pc.buffering = true
+						pc.out.Unlock()
+						err = vfPeerEmptyRecord(pc, recordTypeApplicationData)
+					case "ccs":
+						pc.out.Lock()
+						pc.buffering = true
+						pc.out.nextCipher, pc.out.nextMac = pc.out.cipher, pc.out.mac
+						_, err = pc.writeRecordLocked(recordTypeChangeCipherSpec, []byte{1})
+						pc.out.Unlock()
+					}
+				}
+				pc.out.Lock()
+				if _, ferr := pc.flush(); ferr != nil {
+					err = ferr
+				}
+				pc.out.Unlock()
 			}
 			if err != nil {
 				return nil // the endpoint under test has gone away
@@ -134,8 +178,11 @@ func c09RunFlood(c c09FloodCase) (sig, msg string) {
 				readErr = err
 				return nil
 			}
-			if string(got) == "END" {
+			if string(got) == "END" || (c.Kind == "pattern" && len(got) >= 3 && string(got[len(got)-3:]) == "END") {
 				return nil
+			}
+			if c.Kind == "pattern" && len(got) > 4096 {
+				got = got[len(got)-16:]
 			}
 		}
 		return nil
@@ -172,7 +219,7 @@ func c09RunFlood(c c09FloodCase) (sig, msg string) {
 }
 
 func TestVF_C09_Flood(t *testing.T) {
-	rec := vfRec("C09", "C09-floods", "after an honest handshake a scripted peer sends floods of correctly protected records: handshake records (N x size), empty application-data records, warning alerts, ChangeCipherSpec; both roles, suites GCM/CBC; oracle: no panic, buffers within the fixed bound, more than 16 consecutive non-advancing records answered with an error, up to 16 tolerated; non-trivial = N > 0; distinct = the case")
+	rec := vfRec("C09", "C09-floods", "after an honest handshake a scripted peer sends floods of correctly protected records: handshake records (N x size), empty application-data records, warning alerts, ChangeCipherSpec, and generated repeating patterns of up to four such records (application data, warning alert, handshake record, empty record, ChangeCipherSpec) that reach the transport coalesced, 1..400 cycles; both roles, suites GCM/CBC; oracle: no panic, buffers within the fixed bound, more than 16 consecutive non-advancing records answered with an error, up to 16 tolerated; non-trivial = N > 0; distinct = the case")
 	idx := 0
 	for _, client := range []bool{true, false} {
 		for _, suite := range []uint16{ECC_SM4_GCM_SM3, ECC_SM4_CBC_SM3, ECDHE_SM4_GCM_SM3} {
@@ -203,6 +250,22 @@ func TestVF_C09_Flood(t *testing.T) {
 		}
 	}
 	rec.SetExhaustive(true, fmt.Sprintf("%d flood cases enumerated", idx))
+	vfRapid(t, rec, "patterns", vfN(150, 4000), func(t *rapid.T) {
+		c := c09FloodCase{Client: rapid.Bool().Draw(t, "client"), Suite: rapid.SampledFrom([]uint16{ECC_SM4_GCM_SM3, ECC_SM4_CBC_SM3}).Draw(t, "suite"), Kind: "pattern",
+			Pattern: rapid.SliceOfN(rapid.SampledFrom([]string{"app", "app", "warn", "hs", "empty", "ccs"}), 1, 4).Draw(t, "pattern"),
+			N:       rapid.SampledFrom([]int{1, 3, 20, 100, 400}).Draw(t, "n"), Size: rapid.SampledFrom([]int{1, 5, 64, 900}).Draw(t, "size")}
+		if vfStack == "tlcp" && rapid.Bool().Draw(t, "big") {
+			c.Size = 16000
+			if c.N > 100 {
+				c.N = 100
+			}
+		}
+		sig, msg := c09RunFlood(c)
+		if sig != "" {
+			rec.Fail(t, sig, c, "%s", msg)
+		}
+		rec.Eval(len(c.Pattern) > 1, c, "kind:pattern")
+	})
 	if vfKnown("F8") {
 		sig, _ := c09RunFlood(c09FloodCase{Client: true, Suite: ECC_SM4_GCM_SM3, Kind: "hs-records", N: 300, Size: 16000})
 		rec.Known("F8", sig != "")
